@@ -230,8 +230,8 @@ pub fn map_old<const N: usize>(arr: &[Tok; N], exit: Exit) -> MapOut<N> {
         0 => go!(()),
         1 => go!(panic!("ksim-injected: panic in closure")),
         2 => go!(break),
-        // `continue` would loop forever (documented); never planned
-        3 => go!(()),
+        // `continue` re-runs the same index; this closure exits only on its k-th call
+        3 => go!(continue),
         _ => go!(return MapOut::Returned),
     }
 }
@@ -267,7 +267,7 @@ pub fn from_fn_old<const N: usize>(exit: Exit, typed: bool) -> MapOut<N> {
         0 => go!(()),
         1 => go!(panic!("ksim-injected: panic in closure")),
         2 => go!(break),
-        3 => go!(()),
+        3 => go!(continue),
         _ => go!(return MapOut::Returned),
     }
 }
